@@ -250,7 +250,8 @@ WellLabelled(F, labels, named) ==
     /\ \A j \in 1..Len(Cons(F)) : \A h \in 1..Len(Cons(F)[j].terms) :
           LET l == Cons(F)[j].terms[h][2] IN l # 0 /\ AbsV(l) <= F.nvars
 
-\* form = "snippet": one block, not split; form = "document": no block longer than a page
+\* form = "snippet": one block, not split; form = "document": any number of blocks (how many rows the
+\* writer puts on a page is typesetting; pagesize is kept for the abstract writer of the model only)
 LatexWhy(F, labels, named, pages, form, pagesize) ==
     LET want == Cons(F)
         rows == Concat(pages)
@@ -262,8 +263,6 @@ LatexWhy(F, labels, named, pages, form, pagesize) ==
         ELSE IF Len(pages) = 0 THEN "no_formula_block"
         ELSE IF form = "snippet" /\ Len(pages) # 1 THEN "snippet_is_split"
         ELSE IF \E p \in 1..Len(pages) : Len(pages[p]) = 0 THEN "empty_block"
-        ELSE IF form = "document" /\ \E p \in 1..Len(pages) : Len(pages[p]) > pagesize
-             THEN "page_too_long"
         ELSE IF Len(want) = 0
              THEN (IF Len(rows) = 1 /\ den[1].kind = "top" THEN "ok" ELSE "empty_formula_not_top")
         ELSE IF \E j \in 1..Len(rows) : den[j].kind = "top" THEN "top_in_nonempty_formula"
